@@ -327,7 +327,7 @@ func (l *Lexer) consumeNumber(noPanic bool) {
 	i := 0
 	base := 10
 
-	if l.peekIs(i, '0') && (l.peekIs(i+1, 'x') || l.peekIs(i+1, 'X')) {
+	if l.peekIs(i, '0') && (l.peekIs(i+1, 'x') || l.peekIs(i+1, 'X')) && l.peekOk(i+2) && char.IsHexDigit(l.peek(i+2)) {
 		i += 2
 		base = 16
 	}
